@@ -37,6 +37,7 @@ EXPLANATION = (
     "against the guideline (no second statement of those formulas in the repository).")
 EXPLANATION += (' R-C09-2 additionally requires E to be the assessment parameter, not the material-group table value. R-C09-6: the early-failure position (searchsorted in the cumulative damage of all rows) is compared with the row count of those same rows in both lifetime properties of both calculators, which use the same test and report 0 repetitions / the failure position; P_RAM: x = (1 - D_1)/D_2 with the damage sums of pass 1 / pass 2, repetitions x + 1, cycles = repetitions times the pass-2 count.')
 EXPLANATION += (" R-C09-4 now decides each load safety factor per P_L case on the closed form of the returned value (definitions inlined, conditional expressions case-split): normal (L_max + alpha)/L_max, log-normal max(1, 10**alpha), alpha = (0.7 beta - 2) s | 0.7 beta s. R-C09-7: compute_beta hands the failure probability itself to the normal distribution function; forming 1 - P_A first (cancellation for small probabilities) is a violation.")
+EXPLANATION += (" R-C09-10 (shared with R-C10-4): per-point knee values are spread over the hysteresis table in the table's row order.")
 EXPLANATION += (" R-C09-9: the frame the damage parameter writes its P_RAM column into is the object's own copy, not the caller's table (effect analysis: provenance of the attribute).")
 EXPLANATION += (" R-C09-8: no root finder in the FKM-nonlinear modules is applied to the absolute value of its residual (kink at the root, no sign change); where compute_beta is the closed form -ppf(P_A) / isf(P_A), R-C09-7 records that as the negative standard-normal quantile.")
 ASSUMPTIONS = ["P_Z, P_D, N positive; d_1, d_2, d_RAJ negative (checked by the curve validators)",
@@ -121,8 +122,16 @@ class CurveNF:
 
 
 def run(ctx):
-    for r in (_curves, _pram, _constants, _beta, _half, _accumulation, _complement, _signed_residuals, _own_table):
+    for r in (_curves, _pram, _constants, _beta, _half, _accumulation, _complement, _signed_residuals, _own_table, _knee_layout):
         ctx.attempt(r)
+
+
+def _knee_layout(ctx):
+    """R-C09-10 (shared with R-C10-4): a per-point knee value P_RAM_Z is spread over the hysteresis table in the table's own row
+    order (hysteresis-major, point fastest); otherwise every hysteresis is evaluated on another point's curve and the accumulated
+    lifetime is not that of the curve the property speaks of."""
+    from .c10 import _r4
+    _r4(ctx, "R-C09-10")
 
 
 def _own_table(ctx):
@@ -358,9 +367,31 @@ def _curves(ctx):
                 ctx.holds(fi, node, "P_RAJ curve: " + what)
             else:
                 ctx.violated(fi, node, "P_RAJ curve: %s fails: %r vs %r" % (what, a, b), text="PRAJ " + what)
-        ok = _same_cmp(tj[1], "P_RAJ > P_RAJ_D") and norm_text(tj[3][1]) in ("np.inf",)
-        dflt = [s for s in walk_function(jn.node) if isinstance(s, ast.If) and norm_text(s.test) == "P_RAJ_D is None"]
-        ok = ok and dflt and norm_text(dflt[0].body[0].value) == "self._P_RAJ_D"
+        # decided on the symbolic value of calc_N: where(<endurance value in force> < P, <sloped>, inf) with the endurance value
+        # = the optional argument, or the object's current one when the argument is None
+        from ..absint import Interp, TermDomain
+        jparams = [q for q in jn.params if q != "self"]
+        tv = Interp(prog, TermDomain(), single_exit=True, follow=lambda c_: c_.cls is jn.cls).run(jn, [("p", q) for q in jparams])
+
+        def current(x):
+            """the object's current endurance value: self._P_RAJ_D, or a property that returns it"""
+            if x == ("self", "_P_RAJ_D"):
+                return True
+            if isinstance(x, tuple) and len(x) == 2 and x[0] == "self":
+                m_ = prog.lookup_method(cj, x[1])
+                if m_ is not None and m_.is_property():
+                    r_ = [s_ for s_ in m_.node.body if isinstance(s_, ast.Return)]
+                    return bool(r_) and is_self_attr(r_[-1].value, "_P_RAJ_D")
+            return False
+        ok = False
+        if isinstance(tv, tuple) and len(tv) == 4 and tv[0] == "where" and len(jparams) == 2:
+            c_, inf_ = tv[1], tv[3]
+            pP, pD = ("p", jparams[0]), ("p", jparams[1])
+            lim = c_[2] if isinstance(c_, tuple) and len(c_) == 4 and c_[0] == "cmp" and c_[1] == "lt" and c_[3] == pP else None
+            ok = isinstance(lim, tuple) and len(lim) == 4 and lim[0] == "ite" and lim[1] == ("cmp", "is", pD, ("c", None)) and \
+                current(lim[2]) and lim[3] == pD and inf_ in (("attr", ("g", "np"), "inf"), ("c", float("inf")))
+        else:
+            raise AnalysisError("WoehlerCurvePRAJ.calc_N: the returned value is not a selection")
         if ok:
             ctx.holds(jn, jv, "P_RAJ curve: infinite life on the complement of P > current endurance value")
         else:
